@@ -88,3 +88,93 @@ def run_single(cfg: dict, ctx, letters=None, conn_letters=None, fp=True):
     obs['transports_open'] = sum(1 for t in loop.kern.transports if not t.is_closing())
     ctx.fp = None
     return obs
+
+
+class Session:
+    """A protocol object (optionally wrapped in an Inverter) living across several requests, loops and faults."""
+
+    def __init__(self, cfg: dict, ctx=None, family=None, peer=None):
+        world.reset()
+        self.cfg = cfg
+        self.peer = peer or ScriptPeer(cfg['transport'], cfg['T'], None)
+        self.peer.default_letter = 'valid'
+        self.kern = Kernel(self.peer, ctx=ctx)
+        self.loop = KLoop(kern=self.kern)
+        self.inv = None
+        if family is not None:
+            port = 502 if cfg['transport'] == 'tcp' else 8899
+            self.inv = world.FAMILIES[family](HOST, port, 0, cfg['T'], cfg['R'])
+            self.inv.set_keep_alive(cfg['ka'])
+            self.p = self.inv._protocol
+        else:
+            self.p = make_protocol(cfg['transport'], cfg['T'], cfg['R'], cfg['ka'])
+        self.history = []
+
+    def _run(self, coro):
+        st, res = self.loop.run(coro)
+        if st == 'hang':
+            res = ('hang', res)
+        return res
+
+    def request(self, script=(), conn=(), kind='read', settle=True):
+        self.peer.forced = list(script)
+        self.peer.forced_conn = list(conn)
+        l0, s0, c0 = len(self.kern.log), len(self.peer.sent), len(self.peer.connects)
+        u0 = len(self.loop.unhandled)
+        t0 = self.loop.time()
+        res = self._run(_exec(make_command(self.p, kind), self.p))
+        t1 = self.loop.time()
+        if settle:
+            self.loop.settle(0)
+        obs = observe(self.loop, self.peer, res, t0, t1, l0, s0)
+        obs['connects'] = self.peer.connects[c0:]
+        obs['unhandled'] = obs['unhandled'][u0:]
+        self.peer.forced = []
+        self.peer.forced_conn = []
+        return obs
+
+    def call(self, coro_fn):
+        """Run an arbitrary coroutine (public API call) and classify its outcome."""
+        async def w():
+            try:
+                return ('ok', await coro_fn())
+            except BaseException as e:  # noqa: BLE001
+                return ('exc', type(e).__name__, getattr(e, 'message', None),
+                        [c.__name__ for c in type(e).__mro__], getattr(e, 'consecutive_failures_count', None))
+        l0, s0 = len(self.kern.log), len(self.peer.sent)
+        u0 = len(self.loop.unhandled)
+        t0 = self.loop.time()
+        res = self._run(w())
+        t1 = self.loop.time()
+        self.loop.settle(0)
+        obs = observe(self.loop, self.peer, res, t0, t1, l0, s0)
+        obs['unhandled'] = obs['unhandled'][u0:]
+        return obs
+
+    def close(self):
+        res = self._run(self.p.close())
+        self.loop.settle(0)
+        return res
+
+    def idle(self, dt):
+        self.loop.settle(dt)
+
+    def drain(self):
+        """Advance until nothing is in flight on the network any more (the loop's own timers stay armed
+        unless they fall due meanwhile)."""
+        n = 0
+        while self.kern.q and n < 50:
+            n += 1
+            dt = max(self.kern.q)[0] - self.kern.now
+            self.loop.settle(max(dt, 0) + 1e-4)
+
+    def newloop(self):
+        """What two successive asyncio.run() calls do to a long-lived inverter object."""
+        self.loop.shutdown_like_asyncio_run()
+        self.loop = KLoop(kern=self.kern)
+
+    def fp(self, extra=()):
+        return fingerprint(self.loop, (self.p,) + ((self.inv,) if self.inv is not None else ()), extra)
+
+    def open_transports(self):
+        return [t for t in self.kern.transports if not t.is_closing()]
